@@ -100,6 +100,11 @@ package plugin
 //@ pred ended(r *runningStep) = completions(step.RunningStep(r)) == 1 && reported(step.RunningStep(r), "deploy") != 0 && \
 //@    reported(step.RunningStep(r), "enabling") != 0 && reported(step.RunningStep(r), "starting") != 0 && \
 //@    reported(step.RunningStep(r), "running") != 0 && reported(step.RunningStep(r), "outputs") != 0
+// What the property asks for beyond that: when the step has ended, no stage of its lifecycle is left
+// undecided - the terminal stages a step did not take (crashed, deploy_failed, closed, disabled) are
+// declared impossible too, or whatever waits for them waits for ever.
+//@ pred allStagesDecided(r *runningStep) = ended(r) && reported(step.RunningStep(r), "disabled") != 0 && \
+//@    reported(step.RunningStep(r), "crashed") != 0 && reported(step.RunningStep(r), "deploy_failed") != 0 && reported(step.RunningStep(r), "closed") != 0
 // frame of the ghost state of other steps
 //@ pred othersSame(r *runningStep) = true
 //
@@ -248,6 +253,7 @@ package plugin
 //@   opt token &r.wg
 //@   requires wfstep(r) && nolocks() && r.currentStage == StageIDDeploy && fresh0(r)
 //@   ensures [exactly-one-completion-and-all-stages-decided] ended(r)
+//@   ensures [no-stage-is-left-undecided-when-the-step-has-ended] allStagesDecided(r)
 //@   ensures [context-cancelled-at-exit] ctxdone(r.ctx)
 //@   ensures [every-connection-it-deployed-is-closed] forall p deployer.Plugin :: openconn(p) ==> old(openconn(p))
 //
